@@ -28,7 +28,7 @@ from dataclasses import dataclass, field
 from pathlib import Path
 from typing import Any, Callable, Optional
 
-from .core import Ctx, MachineryError
+from .core import Ctx, MachineryError, jdump
 
 _counter = itertools.count()
 
@@ -117,11 +117,16 @@ class Judgement:
     violating: int = 0
     explained_by: list[str] = field(default_factory=list)
     unexplained: int = 0
-    repaired: dict[str, int] = field(default_factory=dict)
+    drift: int = 0      # cases where the real verdict differs from the full as-built model
+
+
+def _prefer(c: Case):
+    # witnesses: collisions (hash equal although it must differ: the unsound direction) first, then short
+    return (0 if c.law == "d" else 1, len(jdump(c.info)))
 
 
 def judge(ctx: Ctx, cases: list[Case], devs: list[str], keys: dict[str, str],
-          describe: Callable[[Case], str], max_plain: int = 5) -> Judgement:
+          describe: Callable[[Case], str], max_plain: int = 5, prefer: Optional[Callable] = None) -> Judgement:
     """
     devs: deviation names in the order of the spec's `Devs` sequence (bit i of the subset mask).
     keys: deviation name -> stable finding key.
@@ -137,12 +142,9 @@ def judge(ctx: Ctx, cases: list[Case], devs: list[str], keys: dict[str, str],
             raise MachineryError(f"deviation-free model contradicts the law in {c}")
     bad = [c for c in cases if c.violates]
     j.violating = len(bad)
-    # which deviations does the real code no longer show?  (evidence only)
-    for i, d in enumerate(devs):
-        m = 1 << i
-        shown = sum(1 for c in cases if c.law != "u" and c.vstr[m] != c.law)
-        still = sum(1 for c in cases if c.law != "u" and c.vstr[m] != c.law and c.real == c.vstr[m])
-        j.repaired[d] = shown - still
+    # as-built drift (DESIGN 2.5): the code no longer behaves like the as-built model.  Not a
+    # violation by itself (a repaired deviation drifts towards the law); evidence only.
+    j.drift = sum(1 for c in cases if c.real != c.vstr[-1])
     if not bad:
         return j
     # smallest subset explaining all violating cases; else the one explaining most
@@ -156,7 +158,7 @@ def judge(ctx: Ctx, cases: list[Case], devs: list[str], keys: dict[str, str],
     j.explained_by = members
     plain = [c for c in bad if c.vstr[best] != c.real]
     j.unexplained = len(plain)
-    for c in plain[:max_plain]:
+    for c in sorted(plain, key=prefer or _prefer)[:max_plain]:
         ctx.violation(describe(c), {"case": c.info, "law": c.law, "real": c.real, "model": c.vstr,
                                     "source": c.source})
     if len(plain) > max_plain:
@@ -172,7 +174,7 @@ def judge(ctx: Ctx, cases: list[Case], devs: list[str], keys: dict[str, str],
         wit = (pure or needs or expl)
         if not wit:
             continue
-        c = wit[0]
+        c = min(wit, key=prefer or _prefer)
         ctx.violation(describe(c), {"case": c.info, "law": c.law, "real": c.real, "model": c.vstr,
                                     "source": c.source, "deviation": d}, key=keys[d])
     return j
@@ -180,7 +182,7 @@ def judge(ctx: Ctx, cases: list[Case], devs: list[str], keys: dict[str, str],
 
 def note_judgement(ctx: Ctx, name: str, j: Judgement) -> None:
     ctx.note(name, {"cases": j.n, "violating_the_law": j.violating, "explained_by_deviations": j.explained_by,
-                    "unexplained": j.unexplained, "deviation_cases_not_reproduced": j.repaired})
+                    "unexplained": j.unexplained, "asbuilt_drift": j.drift})
 
 
 @contextlib.contextmanager
